@@ -1,13 +1,13 @@
 SPECIFICATION ISpec
 CONSTANTS
   NProc = 2
-  PQs <- PQsA
-  Atomic = FALSE
-  MaxTakes = 5
+  PQs <- PQsB
+  Atomic = TRUE
+  MaxTakes = 4
   MaxAdv = 3
-  Align = FALSE
-  IPhases = {0}
+  Align = TRUE
+  IPhases = {0, 1400, 2600}
   FreezeWindow = FALSE
-  MaxFaults = 2
+  MaxFaults = 0
 INVARIANTS PTypeOK PCanonical Conforms CounterIsTheCount
 CHECK_DEADLOCK FALSE
